@@ -35,6 +35,25 @@ def env(extra=None):
     return e
 
 
+def _default_signal_dispositions():
+    '''A check started under `nohup` (or from a non-interactive shell's `&`)
+    inherits SIGHUP (SIGINT, SIGQUIT) as *ignored*, and so would every task
+    process the executor under test spawns: a scripted "process group killed by
+    SIGHUP" ending would then not kill anything and the task would truthfully
+    end DONE - a verdict which depended on how the check was started.  The
+    workloads need the dispositions a pilot job has: default.'''
+    import signal
+    for name in ('SIGHUP', 'SIGINT', 'SIGQUIT', 'SIGTERM', 'SIGUSR1',
+                 'SIGUSR2', 'SIGALRM'):
+        sig = getattr(signal, name, None)
+        try:
+            if sig is not None and signal.getsignal(sig) == signal.SIG_IGN:
+                signal.signal(sig, signal.default_int_handler
+                              if name == 'SIGINT' else signal.SIG_DFL)
+        except (ValueError, OSError):
+            pass                  # not the main thread: leave it
+
+
 def boot():
     '''import radical.pilot from the working tree; returns (rp, ru)'''
     global _booted
@@ -50,6 +69,8 @@ def boot():
     os.environ[GUARD] = '1'
     if '/venv/bin' not in os.environ.get('PATH', '').split(':'):
         os.environ['PATH'] = '/venv/bin:' + os.environ.get('PATH', '')
+
+    _default_signal_dispositions()
 
     import radical.utils as ru
 
